@@ -2016,13 +2016,13 @@ def check_inclast(facts):
 def check_depthbal(facts):
     r = RuleResult("DEPTHBAL", "the parser's nesting counter (`self.depth`) is a depth, not a count: a function that increments it decrements it "
                                "again on every path to a successful return (cut-set reachability from the increment to each `Ok(..)` / tail "
-                               "return, avoiding the decrements; `?` / `return error(..)` exits abort the parse and are exempt). A missing "
+                               "return, avoiding the decrements; `?` / `return error(..)` exits abort the parse and are exempt) — or it is an "
+                               "'enter' helper all of whose callers do so after the call. A missing "
                                "decrement makes every nested class consume a level for the rest of the pattern: the 257th `[[a][b]…]` operand is "
                                "rejected as 'too deeply nested' at real depth 2")
     n = 0
-    for fn in sorted(facts.body_names()):
-        if not fn.startswith("parse::") or "{closure" in fn:
-            continue
+
+    def summary(fn):
         b = facts.body(fn)
         incs, decs = [], set()
         for bi, i, s in b.iter_stmts():
@@ -2038,8 +2038,6 @@ def check_depthbal(facts):
                 incs.append((bi, s["line"]))
             elif op.startswith("Sub"):
                 decs.add(bi)
-        if not incs:
-            continue
         ok_rets = []
         for bi, i, s in b.iter_stmts():
             if s["k"] == "assign" and s["pl"]["l"] == 0 and not s["pl"]["p"] and s["rv"]["k"] == "agg" and str(s["rv"].get("variant")) in ("Ok", "Some"):
@@ -2050,17 +2048,36 @@ def check_depthbal(facts):
                 if last in ("from_residual", "error"):
                     continue
                 ok_rets.append((bb, t.get("line")))
+        return b, incs, decs, ok_rets
+
+    def leaks_from(b, start, decs, ok_rets):
+        reach = b.reach_from(start, avoid=decs - {start})
+        return [ln for rb, ln in ok_rets if rb in reach and rb not in decs]
+    parse_fns = [f_ for f_ in sorted(facts.body_names()) if f_.startswith("parse::") and "{closure" not in f_]
+    summ = {f_: summary(f_) for f_ in parse_fns}
+    for fn in parse_fns:
+        b, incs, decs, ok_rets = summ[fn]
         for k, (ib, iline) in enumerate(incs, 1):
             n += 1
             key = "%s depth increment #%d is undone" % (fn, k)
-            reach = b.reach_from(ib, avoid=decs - {ib})
-            leak = [ln for rb, ln in ok_rets if rb in reach and rb not in decs]
-            if leak:
-                r.fail(key, "after `self.depth += 1` (line %s) a successful return (line %s) is reachable without `self.depth -= 1`: the level "
-                            "stays consumed for the rest of the pattern" % (iline, leak[0]), facts.loc(fn, iline))
-            else:
+            leak = leaks_from(b, ib, decs, ok_rets)
+            if not leak:
                 r.ok(key, "every successful exit passes the decrement")
                 r.sample({"function": fn, "increment_line": iline, "decrement_blocks": len(decs)})
+                continue
+            # an 'enter' helper: every call site, in every caller, is followed by the decrement on all successful exits
+            sites = []
+            for c in parse_fns:
+                cb, _ci, cdecs, cok = summ[c]
+                for bb, t in cb.iter_calls():
+                    if (t.get("callee") or "") == fn:
+                        sites.append((c, bb, leaks_from(cb, t["t"], cdecs, cok) if t.get("t") is not None else ["?"]))
+            if sites and all(not lk for _, _, lk in sites) and fn not in {c for c, _, _ in sites}:
+                r.ok(key, "enter helper: undone by its caller(s) %s after the call" % sorted({c.split("::")[-1] for c, _, _ in sites}))
+                continue
+            r.fail(key, "after `self.depth += 1` (line %s) a successful return (line %s) is reachable without `self.depth -= 1`%s: the level "
+                        "stays consumed for the rest of the pattern" % (iline, leak[0], " (and its callers do not undo it either)" if sites else ""),
+                   facts.loc(fn, iline))
     r.floor("depth_increments", n, 2)
     return r
 
